@@ -162,7 +162,7 @@ fn neighbours(algo: crate::blob::Algo) -> Vec<crate::blob::Blob> {
 
 /// Keys whose index buckets are directory neighbours: k0/k1 share the first two bytes of their
 /// SHA-1 (same `index-v5/<aa>/<bb>` directory), k0/k2 only the first byte.
-fn index_neighbours() -> Vec<String> {
+pub fn index_neighbours() -> Vec<String> {
     let base = "neighbour-0".to_string();
     let h0 = crate::reffmt::sha1_hex(base.as_bytes());
     let mut same2 = None;
